@@ -9,3 +9,4 @@ CONSTANTS NY = 4
           ScatterBug = FALSE
 INVARIANT Adjoint
 INVARIANT ScatterConserves
+INVARIANT CentringInverse
